@@ -28,6 +28,8 @@ QUANTITIES = [1, 2, 3, 5, 1000, 3840]
 # history layer: one batch with one 1000 mcpu job, one 16-core pool instance, attempt att1 scheduled on it (harness/batchdb/SPEC.md ops)
 PRELUDE = ['createBatch 1 1 1', 'createUpdate 1 1 1 0 1', 'insertJobs 1 1 1 1;;;0;0;0;1000;0', 'commit 1 1', 'newInstance 1 16000 1',
            'activate 1', 'schedule 1 1 1 1']
+# an UPDATE of `attempts`, or add_attempt's `INSERT INTO attempts … ON DUPLICATE KEY UPDATE batch_id = batch_id` (fires the UPDATE triggers)
+TOUCHES_ATTEMPTS = re.compile(r'\s*(UPDATE\s+`?attempts`?\s+SET\b|INSERT\s+INTO\s+`?attempts`?\b)', re.I)
 AGG_TABLES = ('aggregated_job_resources_v3', 'aggregated_job_group_resources_v3',
               'aggregated_billing_project_user_resources_v3', 'aggregated_billing_project_user_resources_by_date_v3')
 
@@ -54,7 +56,8 @@ class C03(Prop):
                   'billed non-decreasing unless the report moves the end earlier (an un-ended attempt counts as ending at +infinity) '
                   'or carries activation_timeout, start only moves earlier, end only earlier once a reason is stored; and for every history of '
                   'reports and resource registrations of one attempt the usage the aggregated tables hold per resource is quantity x billed(row) '
-                  '(seq_usage_eq), hence never negative (seq_usage_nonneg) and at most quantity x max(0, end-start) once ended (usage_le_span).')
+                  '(seq_usage_eq), hence never negative (seq_usage_nonneg) and at most quantity x max(0, end-start) once ended (usage_le_span); '
+                  'a report that marks an activation timeout leaves no start time and bills nothing (timeout_bills_nothing, timeout_report_usage_zero).')
     level_note = ('Trusted: the SQL->Lean translator (harness/extract/sqltrig.py; cross-checked against the minisql interpreter when it '
                   'is present), the Sql3 model of MySQL NULL/three-valued scalar semantics, MySQL firing BEFORE UPDATE triggers on '
                   'every UPDATE of attempts. Rows are inserted with all-NULL times (add_attempt).')
@@ -186,7 +189,8 @@ end HailVerif.Generated.AttemptsTrigger
             elif k == 'unschedule':
                 ops.append(f'unschedule 1 1 1 1 {t()} cancelled 0')
             elif k == 'deactivate':
-                ops.append(f'deactivate 1 {rng.choice(REASONS[1:])} {t()} 0')
+                # an instance that never activates is the usual way an attempt ends with activation_timeout
+                ops.append(f'deactivate 1 {"activation_timeout" if rng.random() < 0.4 else rng.choice(REASONS[1:])} {t()} 0')
             elif k == 'complete':
                 st = 'N' if rng.random() < 0.2 else t()
                 en = 'N' if rng.random() < 0.1 else t()
@@ -209,6 +213,10 @@ end HailVerif.Generated.AttemptsTrigger
         {'hist': ['started 1 1 1 1 5 0', 'addResources 1 1 1 0 1:1000 2:3840', 'unschedule 1 1 1 1 3 cancelled 0', 'started 1 1 1 1 1 0',
                   'heartbeat 6 0 1:1:1']},
         {'hist': ['addResources 1 1 1 0 1:2', 'started 1 1 1 1 6 0', 'deactivate 1 preempted 4 0', 'complete 1 1 1 1 Failed 2 7 completed 0']},
+        # late / duplicate reports carrying a start time reach an attempt that ended with activation_timeout
+        {'hist': ['creating 1 1 1 1 1 0', 'addResources 1 1 1 0 1:1000', 'deactivate 1 activation_timeout 4 0', 'creating 1 1 1 1 1 0',
+                  'started 1 1 1 1 2 0', 'heartbeat 6 0 1:1:1']},
+        {'old': [None, 4, 4, 'activation_timeout'], 'new': [1, 1, 4, 'activation_timeout'], 'res': [1000]},
     ]
 
     def cases(self, rng, n, tier):
@@ -247,15 +255,33 @@ end HailVerif.Generated.AttemptsTrigger
                 usage[t] = u
             return row, res, usage
         steps = []
+        orig_tx = w.db.exec_tx
+
+        def tx_spy(st, sess):       # COMMIT / ROLLBACK inside procedures are not in minisql's statement log: add a marker
+            if w.db.statement_log is not None:
+                w.db.statement_log.append('<' + type(st).__name__ + '>')
+            return orig_tx(st, sess)
+        w.db.exec_tx = tx_spy
         try:
             for op in PRELUDE:
                 if w.apply(op).split()[0] != 'ok':
                     raise MachineryError(f'C03 history prelude: {op} was refused')
             prev = observe()
             for op in c['hist']:
+                w.db.statement_log = []
                 ans = w.apply(op)
                 cur = observe()
-                steps.append({'op': op, 'ans': ans, 'old': prev, 'new': cur})
+                # the statements of the op that UPDATE the attempt's row (att1 is the only attempts row and sits on inst1, so every
+                # such statement matches it), in order, with whether they assign `reason`
+                # -- and were not rolled back (deactivate_instance on an instance that is not live updates and then ROLLBACKs; an op
+                # answered `err` is rolled back by gear's Transaction)
+                log = w.db.statement_log
+                if '<Rollback>' in log:
+                    log = log[len(log) - log[::-1].index('<Rollback>'):]
+                if ans.split()[0] == 'err':
+                    log = []
+                touches = [bool(re.search(r'\breason\s*=', st)) for st in log if TOUCHES_ATTEMPTS.match(st)]
+                steps.append({'op': op, 'ans': ans, 'old': prev, 'new': cur, 'touches': touches})
                 prev = cur
         except self.world.MachineryFailure as e:
             raise MachineryError(f'C03 history: {e}')
@@ -333,11 +359,15 @@ end HailVerif.Generated.AttemptsTrigger
         s, r = row[0], row[1]
         return 0 if s is None or r is None else max(0, r - s)
 
-    def step_oracle(self, old, acc, timeout, rollup_null, ctx):
-        """the property on one report: `old` stored row, `acc` the row stored afterwards"""
+    def step_oracle(self, old, acc, timeout, rollup_null, ctx, marks_timeout=False):
+        """the property on one report: `old` stored row, `acc` the row stored afterwards; `marks_timeout`: the (last) UPDATE of the
+        report proposes reason activation_timeout -- such a report bills nothing"""
         b0, b1 = self.billed(old), self.billed(acc)
         if b1 < 0:
             return 'billed negative'
+        if marks_timeout and (b1 != 0 or acc[0] is not None):
+            return (f'a report marking an activation timeout bills nothing, but the accepted row {acc} keeps a start time'
+                    f'{" and bills " + str(b1) + " ms" if b1 else ""}: old={old} {ctx}')
         if acc[2] is not None and acc[0] is not None and b1 > max(0, acc[2] - acc[0]):
             return f'billed {b1} exceeds end-start for accepted row {acc}'
         if acc[1] is not None and acc[2] is not None and acc[1] > acc[2]:
@@ -385,7 +415,7 @@ end HailVerif.Generated.AttemptsTrigger
             return None
         timeout = new[3] == 'activation_timeout'
         rollup_null = new[1] is None   # no statement in the repo proposes a NULL rollup over a non-NULL one except via NULL parameters
-        msg = self.step_oracle(old, acc, timeout, rollup_null, f'new={new}')
+        msg = self.step_oracle(old, acc, timeout, rollup_null, f'new={new}', marks_timeout=timeout)
         if msg or 'res' not in c:
             return msg
         m = re.fullmatch(r'ins=([-\d,]*) upd=([-\d,]*)', out[1])
@@ -406,17 +436,27 @@ end HailVerif.Generated.AttemptsTrigger
         for i, st in enumerate(self.run_hist(c)):
             (old, res0, us0), (acc, res1, us1) = st['old'], st['new']
             words = st['op'].split()
-            # the reason the op's UPDATEs propose.  deactivate / unschedule issue ONE update that assigns the reason parameter
-            # (deactivate <inst> <reason> ..., unschedule ... cancelled).  started / creating / heartbeat do not assign `reason`, and
-            # started / creating / complete first touch the row through add_attempt's `INSERT ... ON DUPLICATE KEY UPDATE batch_id =
-            # batch_id`: those UPDATEs propose the STORED reason (NEW.reason = OLD.reason), so on an attempt whose stored reason is
-            # activation_timeout they are reports that carry activation_timeout (complete ... <reason> <date> then assigns its own).
-            reasons = {words[2]} if words[0] == 'deactivate' else {'cancelled'} if words[0] == 'unschedule' else \
-                {old[3], words[8]} if words[0] == 'complete' else {old[3]}
-            timeout = 'activation_timeout' in reasons
+            # the reason each UPDATE of the op proposes: the op's reason parameter if the statement assigns `reason` (deactivate <inst>
+            # <reason> …, complete … <reason> <date>, unschedule … cancelled), otherwise the STORED reason (NEW.reason = OLD.reason) --
+            # started / creating / heartbeat never assign it, and started / creating / complete first touch the row through
+            # add_attempt's `INSERT … ON DUPLICATE KEY UPDATE batch_id = batch_id`.  On an attempt whose stored reason is
+            # activation_timeout those UPDATEs are reports that carry activation_timeout.
+            param = words[2] if words[0] == 'deactivate' else 'cancelled' if words[0] == 'unschedule' else \
+                words[8] if words[0] == 'complete' else None
+            stored, proposed = old[3], []
+            for assigns in st['touches']:
+                proposed.append(param if assigns else stored)
+                if assigns:
+                    stored = '?'        # what is stored after an assigning UPDATE is only observed if it is the last one
+            if '?' in proposed:
+                raise MachineryError(f'C03 history: `{st["op"]}` updates the attempt again after assigning its reason; the oracle does not know this shape')
+            if not st['touches'] and acc != old:
+                raise MachineryError(f'C03 history: `{st["op"]}` changed the attempt row without a recognised UPDATE of attempts')
+            timeout = 'activation_timeout' in proposed
+            marks_timeout = bool(proposed) and proposed[-1] == 'activation_timeout'
             rollup_null = words[0] == 'complete' and words[7] == 'N'      # mark_job_complete sets rollup_time = end_time = NULL
             ctx = f'op {i + 1} `{st["op"]}`'
-            msg = self.step_oracle(old, acc, timeout, rollup_null, ctx)
+            msg = self.step_oracle(old, acc, timeout, rollup_null, ctx, marks_timeout=marks_timeout)
             if msg:
                 return msg
             qs = [q for _, q in res1]
@@ -443,9 +483,17 @@ end HailVerif.Generated.AttemptsTrigger
                 tags.append('hist:end<start+resources')
             if any(st['new'][1] and self.billed(st['new'][0]) > 0 for st in steps):
                 tags.append('hist:billed>0+resources')
+            if any(st['old'][0][3] == 'activation_timeout' and st['touches'] and st['op'].split()[0] in ('started', 'creating') for st in steps):
+                tags.append('hist:start-report-after-stored-timeout')
+            if any(st['old'][0][3] == 'activation_timeout' and st['touches'] for st in steps):
+                tags.append('hist:report-after-stored-timeout')
             return (json.dumps(c), tags)
         fired = out[0] != ' '.join(self.enc(v) for v in c['new'])
         tags = ['clamped' if fired else 'passthrough', 'layer:trigger-trio' if 'res' in c else 'layer:before-update-only']
+        if c['new'][3] == 'activation_timeout':
+            tags.append('pair:report-marks-timeout' + ('+proposes-start' if c['new'][0] is not None else ''))
+            if c['old'][3] is not None:
+                tags.append('pair:timeout-report-on-ended-attempt')
         acc = out[0].split(' ')
         if len(acc) == 4 and acc[0] != 'N' and acc[2] != 'N' and int(acc[2]) < int(acc[0]):
             tags.append('pair:end<start')
